@@ -321,7 +321,7 @@ func (x *Exec) strParts(vs []Val) []Str {
 func (x *Exec) external(fn *ssa.Function, args []Val) (Val, bool) {
 	name := x.fname(fn)
 	if strings.HasSuffix(name, ".init") && fn.Synthetic != "" {
-		if name == "unicode/utf8.init" || x.P.isSUTName(name) {
+		if x.P.isSUTName(name) || (fn.Pkg != nil && x.initOK[fn.Pkg.Pkg.Path()]) {
 			return nil, false
 		}
 		return nil, true
@@ -1224,6 +1224,11 @@ func (x *Exec) reflectExt(name string, args []Val) Val {
 
 // deepEq models reflect.DeepEqual on interface values.
 func (x *Exec) deepEq(a, b Iface) Bool {
+	x.rdepth++
+	defer func() { x.rdepth-- }()
+	if x.rdepth > 60 {
+		panic(unsupported{"DeepEqual on a cyclic or very deep value"})
+	}
 	if a.L != nil && a.L == b.L {
 		// identical node: equal unless it contains NaN (documents are finite)
 		return Bool{C: true}
